@@ -139,9 +139,11 @@ class Ctx:
 
     def coq_make(self, targets, timeout=1500):
         """full .vo build of the given targets (paths relative to coq/, e.g. Properties/C14.vo)"""
-        if not os.path.exists(os.path.join(self.coq, "Makefile")):
+        if not getattr(self, "_mk_done", False):
+            # the set of .v files may differ from what ./check --setup saw: always regenerate (0.2 s)
             write_coqproject(self.coq)
             sh("coq_makefile -f _CoqProject -o Makefile", cwd=self.coq)
+            self._mk_done = True
         t = time.time()
         rc, o, e = sh(["timeout", "-s", "KILL", str(timeout), "make", "-k", "-j16"] + targets, cwd=self.coq,
                       shell=False, timeout=timeout + 30)
@@ -253,7 +255,7 @@ class Ctx:
         return os.path.join(self.bin, out)
 
     # ------------------------------------------------------------------ OCaml (extracted model + driver)
-    def ocaml_driver(self, name, module, driver_ml, cstubs=()):
+    def ocaml_driver(self, name, module, driver_ml, cstubs=(), csources=(), ccopt=""):
         """module: basename extracted to coq/Extract/<module>.ml by coq/Extract/Ex*.v (monolithic
         `Extraction "<module>.ml" ...`, which must list Base.ExtractBase.dlib_anchor);
         driver_ml: file under /verif/driver.  main.ml = `open <Module>` + dlib.ml + driver.  Built in
@@ -273,6 +275,11 @@ class Ctx:
         for c in cstubs:
             shutil.copy(os.path.join(VERIF, "driver", c), bdir)
             cs.append(c)
+        for c in csources:           # C sources of the scratch copy the stubs link against (absolute paths)
+            shutil.copy(c, bdir)
+            cs.append(os.path.basename(c))
+        if ccopt:
+            cs = ["-ccopt", ccopt] + cs
         out = os.path.join(self.bin, name)
         rc, o, e = sh(["ocamlfind", "ocamlopt", "-w", "-a", "-O2", "-package", "str,unix", "-linkpkg"] + cs +
                       [module + ".mli", module + ".ml", "main.ml", "-o", out], cwd=bdir, shell=False, timeout=900)
@@ -464,8 +471,10 @@ def tree_id():
     return o.split()
 
 
-def proof_gate(ctx, V, pid=None):
-    """steps 1-3 common to all checks. Returns True if all proofs check."""
+def proof_gate(ctx, V, pid=None, extract=()):
+    """steps 1-3 common to all checks. Returns True if all proofs check.
+    extract: Extract/Ex*.vo targets whose extracted .ml the check's OCaml driver uses (rebuilt from the
+    regenerated Gen files and the current model sources)"""
     ctx.copy_repo()
     ctx.copy_coq()
     try:
@@ -474,7 +483,7 @@ def proof_gate(ctx, V, pid=None):
         V.tie_broken("tie", "translator", str(ex))
         ctx.proof = dict(ok=False, log=str(ex), failing=[], obligations=1, discharged=0, theorems=[], assumptions="", forbidden=[], cone=[], gen_changed=[])
         return False
-    pr = ctx.prove(pid)
+    pr = ctx.prove(pid, extra_targets=list(extract))
     if pr["forbidden"]:
         V.tie_broken("proof", "forbidden-construct", "; ".join(pr["forbidden"]))
     if not pr["ok"]:
